@@ -329,7 +329,7 @@ func Build(w World, p Params) *Concrete {
 		leaf = H.NewLeafKey(leafKey, CNTcbSign, leafSerial, ext, lw.nb, lw.na)
 	case "tcbSignByRoot": // a TCB-Signing-named certificate issued by the (trusted) root, carrying an SGX extension
 		k := leafKey
-		cert, der := Issue(CertSpec{CN: CNTcbSign, Serial: leafSerial, NotBefore: lw.nb, NotAfter: lw.na, CRLDP: dps,
+		cert, der := Issue(CertSpec{CN: CNTcbSign, Serial: leafSerial, NotBefore: lw.nb, NotAfter: lw.na, CRLDP: []string{PckCrlURL("platform")},
 			SgxExt: ext, Pub: &k.PublicKey, Parent: H.Root.Cert, SignKey: H.Root.Key})
 		leaf = Entity{k, cert, der}
 	case "pckByRoot": // PCK-named, SGX extension, but issued directly by the (trusted) root
@@ -339,7 +339,7 @@ func Build(w World, p Params) *Concrete {
 		leaf = Entity{k, cert, der}
 	case "caAsLeaf": // a CA certificate (Platform-CA-named) issued by the root, carrying an SGX extension
 		k := leafKey
-		cert, der := Issue(CertSpec{CN: interCN, Serial: leafSerial, NotBefore: lw.nb, NotAfter: lw.na, IsCA: true, CRLDP: dps,
+		cert, der := Issue(CertSpec{CN: interCN, Serial: leafSerial, NotBefore: lw.nb, NotAfter: lw.na, IsCA: true, CRLDP: []string{PckCrlURL("platform")},
 			SgxExt: ext, Pub: &k.PublicKey, Parent: H.Root.Cert, SignKey: H.Root.Key})
 		leaf = Entity{k, cert, der}
 	default:
